@@ -33,6 +33,8 @@ def apply_edit(engine, ed: dict) -> None:
     t = ed["t"]
     if t in ("term_attr", "discrete_cell", "linear_coeff", "function_var"):
         v = var_of(engine, ed["var"])
+        if not v.terms:
+            return
         term = v.terms[ed["ti"] % len(v.terms)]
         if t == "term_attr":
             if hasattr(term, ed["attr"]) and isinstance(getattr(term, ed["attr"]), (float, int)) and not isinstance(getattr(term, ed["attr"]), bool):
@@ -83,6 +85,8 @@ def apply_edit_spec(spec: dict, ed: dict) -> None:
     t = ed["t"]
     if t in ("term_attr", "discrete_cell", "linear_coeff", "function_var"):
         v = svar_of(spec, ed["var"])
+        if not v["terms"]:
+            return
         term = v["terms"][ed["ti"] % len(v["terms"])]
         a = term["args"]
         if t == "term_attr":
@@ -133,6 +137,8 @@ def gen_edit(rng, spec: dict) -> dict:
             kind = rng.choice(["in", "out"])
             vs = spec["inputs"] if kind == "in" else spec["outputs"]
             vi = rng.randrange(len(vs))
+            if not vs[vi]["terms"]:
+                continue
             ti = rng.randrange(len(vs[vi]["terms"]))
             term = vs[vi]["terms"][ti]
             lo, hi = fdec(vs[vi]["min"]), fdec(vs[vi]["max"])
@@ -465,6 +471,8 @@ def gen_injector(rng, spec: dict, vector_ok: bool) -> dict:
 
 def apply_replace_term_spec(spec: dict, op: dict) -> None:
     v = svar_of(spec, op["var"])
+    if not v["terms"]:
+        return
     ti = op["ti"] % len(v["terms"])
     new = copy.deepcopy(op["term"])
     new["name"] = v["terms"][ti]["name"]
@@ -475,6 +483,8 @@ def apply_replace_term(engine, op: dict, spec_after: dict) -> None:
     """Swap a term object for a new one with the same name (engine reference set the way a user would)."""
     v = var_of(engine, op["var"])
     sv = svar_of(spec_after, op["var"])
+    if not v.terms:
+        return
     ti = op["ti"] % len(v.terms)
     term = S.build_term(sv["terms"][ti])
     term.update_reference(engine)
